@@ -22,3 +22,11 @@
   (! (= (nnV a lo hi)
         (forall ((i Int)) (! (=> (and (<= lo i) (< i hi)) (not (= (select a i) nilVal))) :pattern ((select a i)))))
      :pattern ((nnV a lo hi)))) :named def.nnV))
+; winI: as winV for rows of integers (bytes / runes), elementwise =. DEFINITION.
+(declare-fun winI ((Array Int Int) Int Int (Array Int Int) Int Int Int) Bool)
+(assert (! (forall ((a (Array Int Int)) (ao Int) (an Int) (b (Array Int Int)) (bo Int) (bn Int) (j Int))
+  (! (= (winI a ao an b bo bn j)
+        (and (<= 0 j) (<= (+ j bn) an)
+             (forall ((i Int)) (! (=> (and (<= bo i) (< i (+ bo bn))) (= (select a (+ ao (+ j (- i bo)))) (select b i)))
+                                  :pattern ((select b i))))))
+     :pattern ((winI a ao an b bo bn j)))) :named def.winI))
